@@ -180,6 +180,13 @@ def rule_r2(ctx: Ctx) -> None:
                 if nm == "update_weights":
                     it.trace.append(Effect("call", "update_weights", tuple(args), dict(kwargs), node=call))
                     return recv
+                gm_ = prog.lookup_method(prog.get_class("geneticengine.grammar.grammar.Grammar"), nm)
+                if gm_ is not None:
+                    rets_ = [r_ for r_ in walk_local(gm_.node) if isinstance(r_, ast.Return)]
+                    if rets_ and all(isinstance(r_.value, ast.Name) and r_.value.id == "self" for r_ in rets_):
+                        return recv          # a fluent analysis pass (return self): the grammar object stays the same
+                    if not rets_ or all(r_.value is None for r_ in rets_):
+                        return _NONE
             if nm == "get_gengy" and len(args) == 1 and isinstance(args[0], Sym):
                 return dict(table.get(args[0].tag, {}))
             return None
